@@ -9,7 +9,7 @@ logged and compared with the vector V8 produced for the same history (expected-o
                          state after EVERY statement are observed
   c08_hist_core_d3       all length-3 histories over the 20-statement core alphabet   } only the state after the
   c08_hist_full_d3_<j>   all other length-3 histories over the full alphabet          } LAST statement is observed:
-  c08_hist_core_d4_<j>   all length-4 histories over an 18-statement core             } every proper prefix is a case
+  c08_hist_core_d4_<j>   all length-4 histories over a 10-statement kernel            } every proper prefix is a case
                                                                                         of its own (prefix-closed set)
   c08_call               call form x function kind x probe (full product) + native functions
 """
@@ -39,7 +39,20 @@ ASSUMPTIONS = [
 RUN = "mc.props.c08:run_case"
 TL = 30
 
-CORE4 = [s for s in G.CORE if s not in ("o1.a = 1", "o2.m = F1.prototype.m")]
+# kernel alphabet of the depth-4 exploration (subset of the core, so every prefix is in c08_hist_core_d3)
+CORE4 = [
+    "o1 = {a: 1, get b(){ return this.a }, set b(v){ this.c = v }}",
+    "o2 = Object.create(o1)",
+    "o2 = new F1()",
+    "o3 = new F2()",
+    "o2.b = 8",
+    "delete o1.a",
+    "Object.setPrototypeOf(o3, o2)",
+    "F1.prototype = o1",
+    "F2.prototype = Object.create(F1.prototype)",
+    "Object.assign(o3, o1)",
+]
+assert all(s in G.CORE for s in CORE4)
 N_FULL3 = 22
 NAMES = G.probe_names()
 
@@ -166,7 +179,7 @@ def strata():
                              "depth 3, |A| = %d" % len(G.FULL)))
     for j in range(len(CORE4)):
         st.append(hist_space("c08_hist_core_d4_%d" % j, lambda j=j: _hist_cases(_core4(j), False),
-                             "length-4 histories over the %d-statement core starting with `%s`; last state observed"
+                             "length-4 histories over the %d-statement kernel starting with `%s`; last state observed"
                              % (len(CORE4), CORE4[j][:40]), "depth 4, |A| = %d" % len(CORE4)))
     return st
 
